@@ -299,6 +299,49 @@ fn hostile_plans(thorough: bool) -> Vec<Plan> {
     out
 }
 
+/// instantiate of the staking contract with K0-K3 and every single corruption of the configuration (C16 part)
+fn instantiate_battery(r: &mut Runner) {
+    let mut n = 0u64;
+    let mut viols = vec![];
+    for k in [K::k0(), K::k1(), K::k2(), K::k3(150_000)] {
+        let base = serde_json::to_value(instantiate_msg(&k)).unwrap();
+        let mut variants: Vec<serde_json::Value> = vec![base.clone()];
+        for (path, vals) in [
+            (vec!["native_chain_config", "account_address_prefix"], vec![json!(""), json!("a".repeat(200)), json!("é")]),
+            (vec!["native_chain_config", "staker_address"], vec![json!(""), json!("1"), json!("celestia1"), json!("é1é")]),
+            (vec!["native_chain_config", "validators"], vec![json!([]), json!([""]), json!(["x", "x"])]),
+            (vec!["native_chain_config", "unbonding_period"], vec![json!(0), json!(315_360_000u64)]),
+            (vec!["protocol_chain_config", "ibc_channel_id"], vec![json!(""), json!("channel-"), json!("channel-99999999999999999999999")]),
+            (vec!["protocol_chain_config", "ibc_token_denom"], vec![json!(""), json!("ibc/"), json!("ibc/é")]),
+            (vec!["protocol_chain_config", "minimum_liquid_stake_amount"], vec![json!("0"), json!("340282366920938463463374607431768211455")]),
+            (vec!["protocol_fee_config", "dao_treasury_fee"], vec![json!("0"), json!("1000000")]),
+            (vec!["liquid_stake_token_denom"], vec![json!(""), json!("abc"), json!("é"), json!("a".repeat(300))]),
+            (vec!["batch_period"], vec![json!(0), json!(315_360_000u64)]),
+            (vec!["monitors"], vec![json!([]), json!([""]), json!(["osmo1", "osmo1"])]),
+        ] {
+            for v in vals {
+                let mut m = base.clone();
+                let mut cur = &mut m;
+                for p in &path[..path.len() - 1] {
+                    cur = &mut cur[*p];
+                }
+                cur[path[path.len() - 1]] = v;
+                variants.push(m);
+            }
+        }
+        for v in variants {
+            let Ok(msg) = serde_json::from_value::<staking::msg::InstantiateMsg>(v.clone()) else { continue };
+            n += 1;
+            if let Err(e) = World::new_with(&k, msg) {
+                if e.contains("panic") {
+                    viols.push((viol("C16", "panic.instantiate", format!("instantiate panicked: {e}")), json!({"config": k.name, "message": v})));
+                }
+            }
+        }
+    }
+    r.grid("c16-staking-instantiate-battery", n, 2, n, 0, vec![json!({"config": "K1", "field": "liquid_stake_token_denom", "value": ""})], viols);
+}
+
 // ------------------------------------------------------------------------------------------ C17
 fn query_plans(thorough: bool) -> Vec<Plan> {
     let mut out = vec![];
@@ -338,6 +381,10 @@ pub fn run(prop: &str, thorough: bool) -> i32 {
     let mut r = Runner::new(prop, if thorough { "thorough" } else { "quick" });
     if prop == "C10" {
         fresh_instances(&mut r);
+    }
+    if prop == "C16" {
+        crate::treasury_grid::panic_battery(&mut r);
+        instantiate_battery(&mut r);
     }
     for p in plans(prop, thorough) {
         let lim = Limits { max_depth: p.depth, max_states: if thorough { 20_000_000 } else { 2_000_000 }, max_wall_s: if thorough { 3000.0 } else { 240.0 } };
